@@ -20,7 +20,7 @@
 (***************************************************************************)
 EXTENDS Naturals, Integers, Sequences, FiniteSets, TLC, Json
 
-CONSTANTS N, MaxAccounts, MaxOps
+CONSTANTS N, MaxAccounts, MaxOps, BigOnly     \* BigOnly: only large revoker sets with high thresholds (revocation by many shares), one credential shape
 
 Revokers == 1..N
 Attrs == {0, 8}
@@ -59,10 +59,10 @@ Revoke(S) ==
   /\ UNCHANGED <<idobj, cred>>
 
 INext ==
-  \/ \E v \in {0, 1}, ars \in (SUBSET Revokers) \ {{}}, thr \in 1..N : thr <= Cardinality(ars) /\ Request(v, ars, thr)
-  \/ \E c \in Counters, r \in SUBSET Attrs, k \in {"new", "existing"} : Create(c, r, k)
-  \/ \E p \in Perturbations : Verify(p)
-  \/ \E S \in SUBSET Revokers : idobj # <<>> /\ S \subseteq idobj[1].ars /\ S # {} /\ Revoke(S)
+  \/ \E v \in {0, 1}, ars \in (SUBSET Revokers) \ {{}}, thr \in 1..N : thr <= Cardinality(ars) /\ (BigOnly => (Cardinality(ars) >= 4 /\ thr >= 4)) /\ Request(v, ars, thr)
+  \/ \E c \in Counters, r \in SUBSET Attrs, k \in {"new", "existing"} : (BigOnly => (c = 0 /\ r = {} /\ k = "new")) /\ Create(c, r, k)
+  \/ \E p \in Perturbations : (BigOnly => p = "none") /\ Verify(p)
+  \/ \E S \in SUBSET Revokers : idobj # <<>> /\ S \subseteq idobj[1].ars /\ S # {} /\ (BigOnly => Cardinality(S) >= 3) /\ Revoke(S)
 ISpec == IInit /\ [][INext]_ivars
 
 (* a credential exists only for counters within the account limit; revocation needs the threshold *)
